@@ -49,7 +49,9 @@ def rule_tls_restore(ctx, cfg, F):
         user_blocks = [b for b, t in f.calls() if strip_generics(callee_name(t)) in USER_CODE or strip_generics(t.get("callee") or "") in USER_CODE]
         # a message-level function (it runs the serializer / decoder) that writes a table in place instead of exchanging it
         inplace = []
-        if user_blocks and not f.impl_trait:
+        # (only a function that drives a whole message -- it calls bincode -- not the per-attachment serializers, which push by design)
+        drives_message = any(strip_generics(callee_name(t)).startswith("bincode::") or strip_generics(t.get("callee") or "").startswith("bincode::") for _, t in f.calls())
+        if user_blocks and drives_message and not f.impl_trait:
             tr0 = Tracer(f)
             for b, t in f.calls():
                 nm = strip_generics(callee_name(t))
